@@ -4,7 +4,7 @@
 export GOFLAGS=-mod=mod GOPROXY=off GOSUMDB=off GOTOOLCHAIN=local
 d="$1"; race="${2:-}"
 wt=$(mktemp -d /tmp/cs-wt.XXXXXX); rmdir "$wt"
-git -C /repo worktree add -q --detach "$wt" HEAD || exit 2
+git -C /repo worktree add -q --detach "$wt" "${SEED_BASE:-HEAD}" || exit 2
 mkdir -p "$wt/seeddemo"; cp "$d/demo_test.go" "$wt/seeddemo/demo_test.go"
 clean=FAIL; (cd "$wt" && go test $race -vet=off -count=1 ./seeddemo/ >"$d/.clean.log" 2>&1) && clean=PASS
 apply=OK; git -C "$wt" apply "$d/patch.diff" 2>"$d/.apply.log" || apply=FAIL
